@@ -288,7 +288,7 @@ const c48TraceSet = "trace=open,openat,write,rename,renameat,renameat2,unlink,un
 
 // c48Run runs the CLI under strace in dir; inject is an optional strace -e inject=... expression.
 func c48Run(dir string, target string, inject string, usePathFilter bool, args ...string) (trace string, killed bool, err error) {
-	ctx, cancel := context.WithTimeout(context.Background(), 90*time.Second)
+	ctx, cancel := context.WithTimeout(context.Background(), 600*time.Second)
 	defer cancel()
 	tf := filepath.Join(dir, fmt.Sprintf(".trace-%d", time.Now().UnixNano()))
 	defer os.Remove(tf)
